@@ -46,7 +46,7 @@ def current_token_guard(F, fn, block, sentinel):
         if f[0] == 'variant' and f[2] == TOKEN and 'current_token' in str(f[1]):
             vals = f[3]
             if None not in vals and sd not in vals:
-                res.append(f[4])
+                res.append((f[4], f[5]))
             elif None in vals:
                 # otherwise-edge: the sentinel must be one of the explicit values of that switch
                 pass
@@ -73,9 +73,9 @@ def current_token_guard(F, fn, block, sentinel):
                     continue
                 equal = (tv and not is_ne) or ((not tv) and is_ne)
                 if tok == sentinel and not equal:
-                    res.append(f[3])
+                    res.append((f[3], f[4]))
                 elif tok != sentinel and equal and not isinstance(tok, tuple):
-                    res.append(f[3])
+                    res.append((f[3], f[4]))
     return res
 
 
@@ -108,11 +108,12 @@ class Progress:
         if not edges:
             return False
         cons = self.consuming_calls(fn)
-        for tb in edges:
+        for tb, d in edges:
             ok = True
-            reach_from = fn.reachable(tb)
+            # paths that pass the guard again (loop back edges) re-establish it: only look at paths avoiding the guard block
+            reach_from = fn.reachable(tb, stop={d})
             for cb, cn in cons:
-                if cb != b and cb in reach_from and b in fn.reachable(cb):
+                if cb != b and cb in reach_from and b in fn.reachable(cb, stop={d}):
                     ok = False
             if ok:
                 return True
